@@ -2,7 +2,7 @@
    the ISO frame of Spec/IsoRequests.v; outside it they fail, so nothing is sent.  Arithmetic by lia; facts about
    the service table by computation over the regenerated Gen/ServiceTable.v. *)
 From Coq Require Import ZArith List Bool String Lia ZifyBool.
-From UDS Require Import Lib.Bytes Lib.ErrM Lib.PyOps Spec.IsoRequests Model.Message Model.Client Model.Services
+From UDS Require Import Lib.Bytes Lib.ErrM Lib.PyOps Gen.Maps Spec.IsoRequests Model.Message Model.Client Model.Services
   Model.Helpers Model.MemLoc Model.Svc_Simple Model.Svc_Memory Model.Svc_Did Model.Svc_File Model.Svc_Dtc Model.History
   Proofs.Bytes_lemmas Proofs.C17_lemmas Proofs.C19_lemmas Proofs.C05_lemmas Proofs.Client_lemmas Proofs.C14_lemmas.
 Import ListNotations.
@@ -347,3 +347,189 @@ Proof.
   destruct T as (_ & _ & _ & _ & T5). unfold frame_of in Hf. destruct mk as [e|rq]; [discriminate|]. cbn [bind] in Hf.
   rewrite Hf in T5. exact T5.
 Qed.
+
+(* ---- LinkControl: the caller's Baudrate object in all its forms against ISO's identifier table ---------------------- *)
+Lemma baud_table_is_iso : gen_baudrate_map = iso_baud_ids.
+Proof. reflexivity. Qed.
+Lemma map_get_baud r : map_get gen_baudrate_map r = iso_id_of_rate r.
+Proof. reflexivity. Qed.
+Lemma id_of_rate_bound r i : iso_id_of_rate r = Some i -> 0 <= r <= 1000000 /\ 0 <= i <= 255.
+Proof.
+  unfold iso_id_of_rate, iso_baud_ids. cbn [find].
+  repeat match goal with |- context [?a =? r] => destruct (a =? r) eqn:?; [intros H; injection H as <-; lia|] end.
+  discriminate.
+Qed.
+Lemma rate_of_id_bound i k : iso_rate_of_id i = Some k -> 0 <= k <= 1000000 /\ 0 <= i <= 255 /\ iso_id_of_rate k = Some i.
+Proof.
+  unfold iso_rate_of_id, iso_baud_ids. cbn [find].
+  repeat match goal with |- context [?a =? i] => destruct (a =? i) eqn:?; [intros H; injection H as <-; assert (i = a) as -> by lia; repeat split; try lia; reflexivity|] end.
+  discriminate.
+Qed.
+
+Definition lc_arg (b : option (Z * Z)) : M (option baud) :=
+  match b with Some (r, t) => (x <- mk_baud r t ;; ret (Some x)) | None => ret None end.
+
+Lemma bind_ret_same {A} (m : M A) : (x <- m ;; ret x) = m.
+Proof. destruct m; reflexivity. Qed.
+
+Lemma link_control_agrees_none st ct : agrees st (x <- lc_arg None ;; lc_make_client ct x) (iso_link_control ct None).
+Proof.
+  unfold iso_link_control, in_u, lc_arg. cbn [bind ret]. unfold lc_make_client, lc_make.
+  destruct ((0 <=? ct) && (ct <=? 127)) eqn:E; [|rewrite validate_int_out by lia; eexists; reflexivity].
+  rewrite validate_int_in by lia. cbn [bind].
+  destruct ((ct =? 2) || (ct =? 1)) eqn:E12.
+  - replace ((ct =? 1) || (ct =? 2)) with true by lia. eexists; reflexivity.
+  - replace ((ct =? 1) || (ct =? 2)) with false by lia. cbn [bind ret].
+    replace (ct =? 2) with false by lia. replace (ct =? 1) with false by lia. cbn [bind ret].
+    exists 135, true. split; [in_iso|]. rewrite bind_ret_same. apply frame_mk_req_sub_nodata; [in_iso|lia].
+Qed.
+
+(* what Baudrate(rate, ty) is, when it can be built: its stored rate and its resolved type 0 / 1 / 2 *)
+Ltac fin := cbn [bd_rate bd_type]; repeat split; cbn [bd_rate bd_type]; try lia; try (left; split; [lia|eauto]).
+
+Lemma mk_baud_cases rate ty :
+  match mk_baud rate ty with
+  | inr b => bd_rate b = rate /\ 0 <= rate /\
+             ((bd_type b = 0 /\ exists i, iso_id_of_rate rate = Some i) \/ (bd_type b = 1 /\ rate <= 16777215) \/ (bd_type b = 2 /\ rate <= 255)) /\
+             (ty = 3 -> bd_type b = match iso_id_of_rate rate with Some _ => 0 | None => if rate <=? 255 then 2 else 1 end) /\
+             (ty <> 3 -> bd_type b = ty)
+  | inl e => e = EValue /\ iso_baud_meaning rate ty = None
+  end.
+Proof.
+  unfold mk_baud, iso_baud_meaning. rewrite map_get_baud.
+  unfold gen_baud_Auto, gen_baud_Fixed, gen_baud_Specific, gen_baud_Identifier.
+  destruct (rate <? 0) eqn:Er; [split; reflexivity|].
+  destruct (ty =? 3) eqn:E3.
+  - destruct (iso_id_of_rate rate) as [i|] eqn:Ei.
+    + cbn [Z.eqb Pos.eqb]. cbv iota. fin.
+    + destruct (rate <=? 255) eqn:E255.
+      * cbn [Z.eqb Pos.eqb]. cbv iota. replace (255 <? rate) with false by lia. fin.
+      * cbn [Z.eqb Pos.eqb]. cbv iota. destruct (16777215 <? rate) eqn:Eb.
+        -- split; [reflexivity|]. replace (rate <=? 16777215) with false by lia. reflexivity.
+        -- fin.
+  - destruct (ty =? 1) eqn:E1.
+    + destruct (16777215 <? rate) eqn:Eb.
+      * split; [reflexivity|]. replace (ty =? 0) with false by lia. replace (rate <=? 16777215) with false by lia. reflexivity.
+      * fin.
+    + destruct (ty =? 2) eqn:E2.
+      * destruct (255 <? rate) eqn:Eb.
+        -- split; [reflexivity|]. replace (ty =? 0) with false by lia. replace (rate <=? 255) with false by lia. reflexivity.
+        -- fin.
+      * destruct (ty =? 0) eqn:E0.
+        -- destruct (iso_id_of_rate rate) as [i|] eqn:Ei.
+           ++ fin.
+           ++ split; reflexivity.
+        -- split; reflexivity.
+Qed.
+
+Lemma eff_not_id r t : t <> 2 -> baud_effective {| bd_rate := r; bd_type := t |} = inr r.
+Proof. intros H. unfold baud_effective, gen_baud_Identifier. cbn [bd_type bd_rate]. replace (t =? 2) with false by lia. reflexivity. Qed.
+Lemma eff_id r : baud_effective {| bd_rate := r; bd_type := 2 |} = match iso_rate_of_id r with Some k => inr k | None => inl ERuntime end.
+Proof.
+  unfold baud_effective, gen_baud_Identifier, iso_rate_of_id. cbn [bd_type bd_rate]. change (2 =? 2) with true. cbv iota.
+  rewrite baud_table_is_iso. destruct (find _ iso_baud_ids) as [[k v]|]; reflexivity.
+Qed.
+Lemma mk_specific r : 0 <= r <= 16777215 -> mk_baud r 1 = inr {| bd_rate := r; bd_type := 1 |}.
+Proof.
+  intros H. unfold mk_baud, gen_baud_Auto, gen_baud_Specific. replace (r <? 0) with false by lia.
+  change (1 =? 3) with false. cbv iota. change (1 =? 1) with true. cbv iota. replace (16777215 <? r) with false by lia. reflexivity.
+Qed.
+Lemma mk_fixed r : 0 <= r -> mk_baud r 0 = match iso_id_of_rate r with Some _ => inr {| bd_rate := r; bd_type := 0 |} | None => inl EValue end.
+Proof.
+  intros H. unfold mk_baud, gen_baud_Auto, gen_baud_Specific, gen_baud_Identifier, gen_baud_Fixed. replace (r <? 0) with false by lia.
+  change (0 =? 3) with false. cbv iota. change (0 =? 1) with false. change (0 =? 2) with false. change (0 =? 0) with true. cbv iota.
+  rewrite map_get_baud. reflexivity.
+Qed.
+Lemma bytes_specific r : 0 <= r <= 16777215 -> baud_bytes {| bd_rate := r; bd_type := 1 |} = inr (be_enc 3 r).
+Proof.
+  intros H. unfold baud_bytes, gen_baud_Fixed, gen_baud_Specific. cbn [bd_type bd_rate].
+  change (1 =? 0) with false. change (1 =? 1) with true. cbv iota. exact (three_bytes r ltac:(lia)).
+Qed.
+Lemma bytes_fixed r i : iso_id_of_rate r = Some i -> baud_bytes {| bd_rate := r; bd_type := 0 |} = inr (be_enc 1 i).
+Proof.
+  intros H. unfold baud_bytes, gen_baud_Fixed. cbn [bd_type bd_rate]. change (0 =? 0) with true. cbv iota.
+  rewrite map_get_baud, H. apply pack_B_enc. pose proof (id_of_rate_bound r i H). lia.
+Qed.
+Lemma bytes_id r : 0 <= r <= 255 -> baud_bytes {| bd_rate := r; bd_type := 2 |} = inr (be_enc 1 r).
+Proof.
+  intros H. unfold baud_bytes, gen_baud_Fixed, gen_baud_Specific, gen_baud_Identifier. cbn [bd_type bd_rate].
+  change (2 =? 0) with false. change (2 =? 1) with false. change (2 =? 2) with true. cbv iota. apply pack_B_enc. lia.
+Qed.
+
+Lemma meaning_resolved rate ty b : mk_baud rate ty = inr b ->
+  bd_rate b = rate /\ 0 <= rate /\
+  ((bd_type b = 0 /\ exists i, iso_id_of_rate rate = Some i /\ iso_baud_meaning rate ty = Some (rate, Some i)) \/
+   (bd_type b = 1 /\ rate <= 16777215 /\ iso_baud_meaning rate ty = Some (rate, iso_id_of_rate rate)) \/
+   (bd_type b = 2 /\ rate <= 255 /\ iso_baud_meaning rate ty = match iso_rate_of_id rate with Some k => Some (k, Some rate) | None => None end)).
+Proof.
+  intros Eb. pose proof (mk_baud_cases rate ty) as H. rewrite Eb in H. destruct H as (Hr & H0 & Hd & Ha & Hn).
+  split; [exact Hr|]. split; [exact H0|].
+  assert (iso_baud_meaning rate ty = iso_baud_meaning rate (bd_type b)) as Em.
+  { unfold iso_baud_meaning. replace (rate <? 0) with false by lia.
+    destruct (ty =? 3) eqn:E3.
+    - rewrite (Ha ltac:(lia)). destruct Hd as [[H1 _]|[[H1 _]|[H1 _]]]; rewrite (Ha ltac:(lia)) in H1;
+        destruct (iso_id_of_rate rate); try destruct (rate <=? 255); try lia; reflexivity.
+    - rewrite (Hn ltac:(lia)). replace (ty =? 3) with false by lia. reflexivity. }
+  rewrite Em. unfold iso_baud_meaning. replace (rate <? 0) with false by lia.
+  destruct Hd as [[H1 [i Hi]]|[[H1 H2]|[H1 H2]]]; rewrite H1.
+  - left. split; [reflexivity|]. exists i. split; [exact Hi|]. change (0 =? 3) with false. cbv iota. change (0 =? 0) with true. cbv iota. rewrite Hi. reflexivity.
+  - right; left. split; [reflexivity|]. split; [exact H2|]. change (1 =? 3) with false. cbv iota. change (1 =? 0) with false. change (1 =? 1) with true. cbv iota.
+    replace (rate <=? 16777215) with true by lia. reflexivity.
+  - right; right. split; [reflexivity|]. split; [exact H2|]. change (2 =? 3) with false. cbv iota. change (2 =? 0) with false. change (2 =? 1) with false. change (2 =? 2) with true. cbv iota.
+    replace (rate <=? 255) with true by lia. reflexivity.
+Qed.
+
+Ltac sb := cbn [bind ret orb andb negb bd_type bd_rate Z.eqb Pos.eqb]; cbv iota.
+
+Lemma link_control_agrees_some st ct rate ty :
+  agrees st (x <- lc_arg (Some (rate, ty)) ;; lc_make_client ct x) (iso_link_control ct (Some (rate, ty))).
+Proof.
+  unfold lc_arg, iso_link_control, in_u.
+  destruct (mk_baud rate ty) as [e|b] eqn:Eb.
+  - pose proof (mk_baud_cases rate ty) as H. rewrite Eb in H. destruct H as [-> Hm]. cbn [bind]. rewrite Hm.
+    destruct ((0 <=? ct) && (ct <=? 127)); [destruct (ct =? 1); [|destruct (ct =? 2)]|]; eexists; reflexivity.
+  - destruct (meaning_resolved rate ty b Eb) as (Hr & H0 & Hd). destruct b as [r t]. cbn [bd_rate bd_type] in *. subst r.
+    cbn [bind ret]. unfold lc_make_client, lc_make.
+    destruct ((0 <=? ct) && (ct <=? 127)) eqn:E; [|rewrite validate_int_out by lia; eexists; reflexivity].
+    rewrite validate_int_in by lia. cbn [bind].
+    unfold baud_make_new_type, gen_baud_Specific, gen_baud_Fixed.
+    destruct (ct =? 1) eqn:E1.
+    + (* fixed-baud-rate transition *)
+      assert (ct = 1) as -> by lia. sb.
+      destruct Hd as [(-> & i & Hi & Hm)|[(-> & Hb & Hm)|(-> & Hb & Hm)]]; rewrite Hm; sb.
+      * rewrite (bytes_fixed rate i Hi). sb. rewrite eff_not_id by lia. sb.
+        exists 135, true. split; [in_iso|]. rewrite bind_ret_same. apply frame_mk_req_sub; [in_iso|lia].
+      * rewrite eff_not_id by lia. sb. rewrite mk_fixed by lia.
+        destruct (iso_id_of_rate rate) as [i|] eqn:Hi; [|eexists; reflexivity].
+        sb. rewrite (bytes_fixed rate i Hi). sb.
+        exists 135, true. split; [in_iso|]. rewrite bind_ret_same. apply frame_mk_req_sub; [in_iso|lia].
+      * rewrite bytes_id by lia. sb. rewrite eff_id.
+        destruct (iso_rate_of_id rate) as [k|] eqn:Hk.
+        -- sb. exists 135, true. split; [in_iso|]. rewrite bind_ret_same. apply frame_mk_req_sub; [in_iso|lia].
+        -- destruct (mk_req "LinkControl" (Some 1) (Some (be_enc 1 rate))); eexists; reflexivity.
+    + destruct (ct =? 2) eqn:E2.
+      * (* specific-baud-rate transition *)
+        assert (ct = 2) as -> by lia. sb.
+        destruct Hd as [(-> & i & Hi & Hm)|[(-> & Hb & Hm)|(-> & Hb & Hm)]]; rewrite Hm; sb.
+        -- pose proof (id_of_rate_bound rate i Hi) as Hbd.
+           rewrite eff_not_id by lia. sb. rewrite mk_specific by lia. sb.
+           rewrite bytes_specific by lia. sb.
+           exists 135, true. split; [in_iso|]. rewrite bind_ret_same. apply frame_mk_req_sub; [in_iso|lia].
+        -- rewrite eff_not_id by lia. sb. rewrite mk_specific by lia. sb.
+           rewrite bytes_specific by lia. sb.
+           exists 135, true. split; [in_iso|]. rewrite bind_ret_same. apply frame_mk_req_sub; [in_iso|lia].
+        -- rewrite eff_id. destruct (iso_rate_of_id rate) as [k|] eqn:Hk; [|eexists; reflexivity].
+           pose proof (rate_of_id_bound rate k Hk) as Hbd.
+           sb. rewrite mk_specific by lia. sb. rewrite bytes_specific by lia. sb.
+           exists 135, true. split; [in_iso|]. rewrite bind_ret_same. apply frame_mk_req_sub; [in_iso|lia].
+      * replace ((ct =? 2) || (ct =? 1)) with false by lia. eexists; reflexivity.
+Qed.
+
+Theorem link_control_agrees st ct b : agrees st (x <- lc_arg b ;; lc_make_client ct x) (iso_link_control ct b).
+Proof. destruct b as [[r t]|]; [apply link_control_agrees_some|apply link_control_agrees_none]. Qed.
+
+(* ... and that builder is what the client method runs *)
+Lemma link_control_call cfg st ct b now s :
+  run_inner cfg st (CLinkControl ct b) now s =
+  single_request cfg st (x <- lc_arg b ;; lc_make_client ct x) (echo1_interpret ct) no_post now s.
+Proof. destruct b as [[r t]|]; reflexivity. Qed.
